@@ -231,6 +231,7 @@ class C15(c02.C02):
         for name, fn in (("wrappers_inprocess", self.check_wrappers_inprocess),
                          ("failing_writers", self.check_failing_writers),
                          ("failing_writers_endpoint", self.check_failing_writers_endpoint),
+                         ("restart_same_object", self.check_restart),
                          ("real_servers", self.check_real_servers)):
             t0 = time.time()
             v, n = fn(chk)
@@ -446,6 +447,97 @@ class C15(c02.C02):
                         if bad:
                             viol.append(self._viol({"k": "failing-writer", "from": k, "exc": exc.__name__,
                                                     "hook": flavour, "entry": entry}, dict(impl, **extra), S))
+        return viol[:3], n
+
+    # -- a server object started AGAIN after a disconnect: the second session counts like the first
+    def check_restart(self, chk):
+        """pygls stops a TCP / stdio server on every disconnect; starting the same object again (a fresh
+        port / fresh pipes) must serve the next client: every complete frame handled once, released, returns.
+        (Model/Wrappers.v: every wrapper run starts from `fresh`, in particular from an unset stop flag.)"""
+        from pygls.lsp.server import LanguageServer
+        msgs = lsp_session()
+        data = b"".join(py_frame(*m) for m in msgs)
+        ends = frame_ends(msgs)
+        viol, n = [], 0
+
+        def tcp_session(srv, handled, prefix, how, bound=15.0):
+            port = self._free_port()
+            res = {}
+
+            def serve():
+                try:
+                    srv.start_tcp("127.0.0.1", port)
+                    res["ret"] = "returns"
+                except BaseException as e:      # noqa
+                    res["ret"] = "raise:" + type(e).__name__
+            th = threading.Thread(target=serve, daemon=True)
+            th.start()
+            before = len(handled)
+            sock, end = None, time.time() + 10
+            while sock is None:
+                try:
+                    sock = socket.create_connection(("127.0.0.1", port), timeout=2)
+                except OSError:
+                    if time.time() > end or not th.is_alive():
+                        break
+                    time.sleep(0.02)
+            if sock is not None:
+                try:
+                    sock.sendall(prefix)
+                    want = before + complete_in(msgs, len(prefix))
+                    end = time.time() + 3
+                    while len(handled) < want and time.time() < end and th.is_alive():
+                        time.sleep(0.005)
+                    if how == "rst":
+                        sock.setsockopt(socket.SOL_SOCKET, socket.SO_LINGER, struct.pack("ii", 1, 0))
+                    else:
+                        sock.shutdown(socket.SHUT_WR)
+                        sock.settimeout(bound)
+                        while sock.recv(65536):
+                            pass
+                except OSError:
+                    pass                        # a server that hangs up on us: judged by what it handled
+                finally:
+                    sock.close()
+            th.join(bound)
+            ev = priv.stop_event(srv)
+            return {"ret": res.get("ret", "hang") if not th.is_alive() else "hang", "handled": len(handled) - before,
+                    "stop_set": bool(ev is not None and ev.is_set())}
+
+        firsts = [("fin", len(data)), ("rst", ends[2] - 9), ("fin", 20), ("fin", 0)]
+        if chk.quick:
+            firsts = firsts[:3]
+        for how, cut in firsts:
+            srv = LanguageServer("c15-restart", "1")
+            handled = []
+            orig = srv.protocol.handle_message
+            srv.protocol.handle_message = lambda m, _o=orig, _h=handled: (_h.append(1), _o(m))[1]
+            for rnd, (h, c) in enumerate([(how, cut), ("fin", len(data)), ("fin", ends[4])]):
+                n += 1
+                impl = tcp_session(srv, handled, data[:c], h)
+                S = {"ret": "returns", "handled": complete_in(msgs, c), "stop_set": True}
+                if impl != S:
+                    viol.append(self._viol({"k": "restart", "entry": "start_tcp", "round": rnd + 1,
+                                            "first": [how, cut], "close": h, "cut": c}, impl, S))
+                    break
+        # the synchronous IO server, twice on the same object with fresh streams
+        srv = LanguageServer("c15-restart", "1")
+        handled = []
+        orig = srv.protocol.handle_message
+        srv.protocol.handle_message = lambda m, _o=orig, _h=handled: (_h.append(1), _o(m))[1]
+        for rnd, c in enumerate((ends[3] + 5, len(data), ends[5])):
+            n += 1
+            before = len(handled)
+            try:
+                priv.start_io_sync(srv)(io.BytesIO(data[:c]), io.BytesIO())
+                ret = "returns"
+            except BaseException as e:      # noqa
+                ret = "raise:" + type(e).__name__
+            impl = {"ret": ret, "handled": len(handled) - before, "stop_set": priv.stop_event(srv).is_set()}
+            S = {"ret": "returns", "handled": complete_in(msgs, c), "stop_set": True}
+            if impl != S:
+                viol.append(self._viol({"k": "restart", "entry": "start_io_sync", "round": rnd + 1, "cut": c}, impl, S))
+                break
         return viol[:3], n
 
     # -- (3) real start_tcp / stdio servers in subprocesses, connection cut at sampled offsets, FIN and RST
